@@ -19,8 +19,8 @@ func setupC07(w *world) {
 	w.r.ProbeDecl("strategy_no_match", "strategy_single_value", "strategy_multi_value", "strategy_label_name", "strategy_full_scan",
 		"restriction_via_parent_only", "selector_unrestricted", "selector_impossible", "potential_matches_pruned")
 	w.targets = append(w.targets, newInheritTarget(w))
-	w.targets = append(w.targets, newNPTarget(w, "npidx", w.r.Src.Chance(300, "np_suppress"), 0))
 	w.targets = append(w.targets, newPruneTarget(w))
+	w.targets = append(w.targets, newNPTarget(w, "npidx", w.r.Src.Chance(300, "np_suppress"), 0))
 }
 
 func setupC04(w *world) {
